@@ -284,6 +284,12 @@ func (w *world) userStep() {
 			return
 		}
 		n := nodes[r.Intn(len(nodes))]
+		if r.Intn(2) == 0 {
+			// calico-node re-creates its tunnel address: same handle, usually the same address, new sequence number
+			if err := w.cni.ReleaseByHandle(context.Background(), "vxlan-tunnel-addr-"+n); err == nil {
+				w.logf("tunnel-release %s", n)
+			}
+		}
 		ips := w.cniAssign("vxlan-tunnel-addr-"+n, n, map[string]string{ipam.AttributeNode: n, ipam.AttributeType: tunnelType}, false, apiv3.IPPoolAllowedUseTunnel)
 		w.logf("tunnel-assign %s %v", n, ips)
 		w.c.Count("tunnel_addresses_assigned", int64(len(ips)))
@@ -325,6 +331,48 @@ func (w *world) deliverSyncer(max int) {
 		w.logf("deliver-syncer %d", n)
 		w.checkBookkeeping("after syncer delivery")
 	}
+}
+
+// resyncSyncer models a watch failure: the pending events are lost and the syncer re-lists, so the
+// controller is shown the current state of every block and calico node (and deletions of the ones
+// that vanished) without the intermediate revisions.
+func (w *world) resyncSyncer() {
+	w.qmu.Lock()
+	w.sq = nil
+	w.qmu.Unlock()
+	var cur []syncEvt
+	have := map[string]bool{}
+	haveNode := map[string]bool{}
+	w.st.View(func(v casstore.View) {
+		for _, kvp := range v.List(model.ResourceListOptions{Kind: internalapi.KindNode}) {
+			cur = append(cur, syncEvt{kvp: *kvp})
+			haveNode[kvp.Key.(model.ResourceKey).Name] = true
+		}
+		for _, kvp := range v.Blocks() {
+			cur = append(cur, syncEvt{kvp: *kvp})
+			have[kvp.Key.(model.BlockKey).CIDR.String()] = true
+		}
+	})
+	n := 0
+	for _, cidr := range sortedKeys(w.V) {
+		if !have[cidr] {
+			w.deliverSync(syncEvt{kvp: model.KVPair{Key: w.V[cidr].key}})
+			n++
+		}
+	}
+	for _, name := range sortedKeys(w.delivNodes) {
+		if !haveNode[name] {
+			w.deliverSync(syncEvt{kvp: model.KVPair{Key: model.ResourceKey{Kind: internalapi.KindNode, Name: name}}})
+			n++
+		}
+	}
+	for _, e := range cur {
+		w.deliverSync(e)
+		n++
+	}
+	w.logf("syncer-resync (%d updates, intermediate revisions skipped)", n)
+	w.c.Count("syncer_resyncs", 1)
+	w.checkBookkeeping("after syncer resync")
 }
 
 func (w *world) deliverPods(max int) {
@@ -466,8 +514,10 @@ func run(c *harness.Case) {
 			w.qmu.Lock()
 			w.faultP = 0
 			w.qmu.Unlock()
-		case x < 98:
+		case x < 97:
 			w.start(false)
+		case x < 98:
+			w.resyncSyncer()
 		default:
 			// everything catches up
 			w.deliverSyncer(1000)
